@@ -36,6 +36,12 @@ type Op struct {
 // tagDesc is the descriptor handed to Tag.
 func tagDesc(g *vh.Graph, op Op) ocispec.Descriptor {
 	d := g.Descs[op.N]
+	if op.Av == 7 {
+		// a descriptor as Resolve(tag) on another (or a reopened) layout returns it: it names a reference in its
+		// reference-name annotation. That annotation is the caller's and must never turn into a tag here.
+		d.Annotations = map[string]string{ocispec.AnnotationRefName: refs[op.N%len(refs)]}
+		return d
+	}
 	if op.Av != 0 {
 		d.Annotations = map[string]string{"verif.variant": fmt.Sprint("v", op.Av)}
 	}
@@ -77,7 +83,7 @@ func die(f string, a ...any) {
 func apply(ctx context.Context, st *oci.Store, g *vh.Graph, op Op) error {
 	switch op.Op {
 	case "push":
-		return st.Push(ctx, g.Descs[op.N], bytes.NewReader(g.Blobs[op.N]))
+		return st.Push(ctx, tagDesc(g, Op{N: op.N, Av: op.Av}), bytes.NewReader(g.Blobs[op.N]))
 	case "tag":
 		return st.Tag(ctx, tagDesc(g, op), op.Ref)
 	case "untag":
@@ -90,6 +96,12 @@ func apply(ctx context.Context, st *oci.Store, g *vh.Graph, op Op) error {
 		if err := st.Tag(ctx, tagDesc(g, op), op.Ref); err != nil {
 			return err
 		}
+		return st.SaveIndex()
+	case "tagsaveflip": // a batch made with AutoSaveIndex off, the option switched on again, then SaveIndex
+		if err := st.Tag(ctx, tagDesc(g, op), op.Ref); err != nil {
+			return err
+		}
+		st.AutoSaveIndex = true
 		return st.SaveIndex()
 	}
 	return fmt.Errorf("unknown op %q", op.Op)
@@ -167,12 +179,12 @@ func gen(count int, seed int64, out string) {
 			if len(absent) == 0 {
 				continue
 			}
-			sc.Victim = Op{Op: "push", N: absent[len(absent)-1]}
+			sc.Victim = Op{Op: "push", N: absent[len(absent)-1], Av: []int{0, 7}[rng.Intn(2)]}
 		case "tag":
 			if len(pres) == 0 {
 				continue
 			}
-			sc.Victim = Op{Op: "tag", N: pres[rng.Intn(len(pres))], Ref: refs[rng.Intn(len(refs))], Av: rng.Intn(3)}
+			sc.Victim = Op{Op: "tag", N: pres[rng.Intn(len(pres))], Ref: refs[rng.Intn(len(refs))], Av: []int{0, 1, 2, 7}[rng.Intn(4)]}
 			if rng.Intn(2) == 0 {
 				// the same content again under a reference it already has, described with other annotations
 				for r, k := range tags {
@@ -203,7 +215,7 @@ func gen(count int, seed int64, out string) {
 			if len(pres) == 0 {
 				continue
 			}
-			sc.Victim = Op{Op: "tagsave", N: pres[rng.Intn(len(pres))], Ref: refs[rng.Intn(len(refs))]}
+			sc.Victim = Op{Op: []string{"tagsave", "tagsaveflip"}[rng.Intn(2)], N: pres[rng.Intn(len(pres))], Ref: refs[rng.Intn(len(refs))]}
 		}
 		enc.Encode(sc)
 	}
